@@ -132,6 +132,33 @@ type FileCase struct {
 	// Whole != "": the file is exactly this text
 	CutAt int    `json:"cut_at,omitempty"`
 	Whole string `json:"whole,omitempty"`
+	// Spelling: how key and table names are capitalised (the file format matches them without regard to case, and
+	// the pinned tree accepts every spelling): "" as documented | upper | title | mixed
+	Spelling string `json:"spelling,omitempty"`
+}
+
+func (c FileCase) spell(name string) string {
+	switch c.Spelling {
+	case "upper":
+		return strings.ToUpper(name)
+	case "title":
+		parts := strings.Split(name, ".")
+		for i, p := range parts {
+			if p != "" {
+				parts[i] = strings.ToUpper(p[:1]) + p[1:]
+			}
+		}
+		return strings.Join(parts, ".")
+	case "mixed":
+		out := []byte(name)
+		for i := range out {
+			if i%2 == 1 && out[i] >= 'a' && out[i] <= 'z' {
+				out[i] -= 32
+			}
+		}
+		return string(out)
+	}
+	return name
 }
 
 func (c FileCase) toml() string {
@@ -145,17 +172,17 @@ func (c FileCase) toml() string {
 		case "feeds":
 			sections["feeds"] = append(sections["feeds"], s.Text)
 		case "hook":
-			sections["media"] = append(sections["media"], "hook = "+s.Text)
+			sections["media"] = append(sections["media"], c.spell("hook")+" = "+s.Text)
 		case "primary", "error", "highlight":
-			sections["style.colors"] = append(sections["style.colors"], s.Key+" = "+s.Text)
+			sections["style.colors"] = append(sections["style.colors"], c.spell(s.Key)+" = "+s.Text)
 		case "code":
-			sections["style.colors"] = append(sections["style.colors"], "code_background = "+s.Text)
+			sections["style.colors"] = append(sections["style.colors"], c.spell("code_background")+" = "+s.Text)
 		case "preload":
-			sections["network"] = append(sections["network"], "preload_amount = "+s.Text)
+			sections["network"] = append(sections["network"], c.spell("preload_amount")+" = "+s.Text)
 		case "timeout":
-			sections["network"] = append(sections["network"], "timeout_seconds = "+s.Text)
+			sections["network"] = append(sections["network"], c.spell("timeout_seconds")+" = "+s.Text)
 		case "cache":
-			sections["network"] = append(sections["network"], "cache_size = "+s.Text)
+			sections["network"] = append(sections["network"], c.spell("cache_size")+" = "+s.Text)
 		}
 	}
 	var b strings.Builder
@@ -163,7 +190,11 @@ func (c FileCase) toml() string {
 		if len(sections[sec]) == 0 {
 			continue
 		}
-		b.WriteString("[" + sec + "]\n")
+		if sec == "feeds" {
+			b.WriteString("[" + sec + "]\n")
+		} else {
+			b.WriteString("[" + c.spell(sec) + "]\n")
+		}
 		for _, l := range sections[sec] {
 			b.WriteString(l + "\n")
 		}
@@ -242,6 +273,9 @@ func checkFile(c FileCase) vrep.Result {
 	if c.Missing {
 		classes = append(classes, "file-missing")
 		must = "accept"
+	}
+	if c.Spelling != "" {
+		classes = append(classes, "names-spelled-"+c.Spelling)
 	}
 	if c.CutAt > 0 {
 		// whatever is left may or may not be well-formed: accepted or rejected with a diagnostic, never a crash
@@ -492,6 +526,7 @@ func genFile(t *rapid.T) FileCase {
 		c.ExtraLabel = "syntax"
 		c.Extra = rapid.SampledFrom([]string{"[network\n", "= 5\n", "x = \n", "[style]\ncolors = {\n", "\"unterminated\n", "a = 1 b = 2\n", "\x00\n"}).Draw(t, "syntax")
 	}
+	c.Spelling = rapid.SampledFrom([]string{"", "", "", "", "upper", "title", "mixed"}).Draw(t, "spelling")
 	switch rapid.IntRange(0, 11).Draw(t, "damaged") {
 	case 3:
 		c.CutAt = rapid.IntRange(1, 120).Draw(t, "cutat")
